@@ -16,11 +16,17 @@
 (* CopyBlockList = TRUE is Append's append([]*SignedBlock{}, parent...)    *)
 (* followed by append; FALSE appends to the parent's list in place, which  *)
 (* lets two children of one parent overwrite each other's last block.      *)
+(* A builder is NOT consumed by Build (C08 quantifies over all             *)
+(* interleavings of add-to-builder and build-block): BuildKeepsBuilder.    *)
 (***************************************************************************)
 EXTENDS Integers, Sequences, FiniteSets, TLC, Json
 
 CONSTANTS DeepClone, CopyBlockList, NSyms, MaxToks, MaxBBs, MaxAdds, MaxOps,
+          BuildKeepsBuilder,   \* TRUE: Build leaves the builder as it was (it can be filled further and built again: each built
+                               \* block holds what its caller had put in so far).  FALSE = builder.go of the pinned tree: Build
+                               \* replaces the builder's table by the split-off part while `start` and the recorded indexes stay.
           Lite,    \* TRUE: only builder / append operations (used by the negative block-list model to reach depth)
+          RootBuilders,   \* TRUE: authority builders (NewBuilder / BuildRoot) take part
           Spares   \* spare capacities the runtime may leave when an array grows ({0, 1} in model checking)
 
 VARIABLES arrays,   \* sequence of backing arrays (sequences of symbols, 0 = unused cell)
@@ -55,7 +61,8 @@ ExtendSet(A, sl, ss) ==
     IF ss = <<>> THEN {[A |-> A, sl |-> sl]}
     ELSE UNION {ExtendSet(r.A, r.sl, Tail(ss)) : r \in InsertSet(A, sl, Head(ss))}
 
-Obs(A, o) == [i \in 1..Len(o.refs) |-> Cell(A, o.sl, o.refs[i])]
+\* an index beyond the table reads as 0 ("<invalid symbol>")
+Obs(A, o) == [i \in 1..Len(o.refs) |-> IF o.refs[i] <= o.sl.n THEN Cell(A, o.sl, o.refs[i]) ELSE 0]
 Flat(ss) == LET RECURSIVE f(_) f(x) == IF x = <<>> THEN <<>> ELSE Head(x) \o f(Tail(x)) IN f(ss)
 
 Init == /\ arrays = << <<>> >>                      \* array 1: the (empty) default table
@@ -68,8 +75,16 @@ CreateBlock(t) ==
     /\ Len(bbs) < MaxBBs
     /\ \E c \in CloneSet(arrays, toks[t].sl) :
           /\ arrays' = c.A
-          /\ bbs' = Append(bbs, [sl |-> c.sl, start |-> c.sl.n, refs |-> <<>>, want |-> <<>>, live |-> TRUE, tok |-> t])
+          /\ bbs' = Append(bbs, [sl |-> c.sl, start |-> c.sl.n, refs |-> <<>>, want |-> <<>>, live |-> TRUE, tok |-> t, root |-> FALSE])
     /\ Log([op |-> "create", t |-> t]) /\ UNCHANGED <<toks, blks>>
+
+\* biscuit.NewBuilder: an AUTHORITY builder over a copy of the default table (array 1, abstracted as empty)
+NewBuilder ==
+    /\ Len(bbs) < MaxBBs
+    /\ \E c \in CloneSet(arrays, Slice(1, 0)) :
+          /\ arrays' = c.A
+          /\ bbs' = Append(bbs, [sl |-> c.sl, start |-> 0, refs |-> <<>>, want |-> <<>>, live |-> TRUE, tok |-> 0, root |-> TRUE])
+    /\ Log([op |-> "newbuilder"]) /\ UNCHANGED <<toks, blks>>
 
 AddFact(b, s) ==
     /\ bbs[b].live /\ Len(bbs[b].refs) < MaxAdds
@@ -79,15 +94,31 @@ AddFact(b, s) ==
     /\ Log([op |-> "add", b |-> b, s |-> s]) /\ UNCHANGED <<toks, blks>>
 
 BuildBlock(b) ==
-    /\ bbs[b].live
+    /\ bbs[b].live /\ ~bbs[b].root
+    /\ bbs[b].sl.n >= bbs[b].start            \* otherwise SplitOff panics (NoSplitPanic)
     /\ LET x == bbs[b]
            own == [i \in 1..(x.sl.n - x.start) |-> Cell(arrays, x.sl, x.start + i)]      \* SplitOff copies the cells NOW
            wantOwn == LET RECURSIVE nw(_, _) nw(ws, seen) == IF ws = <<>> THEN <<>>
                                 ELSE IF Head(ws) \in seen THEN nw(Tail(ws), seen) ELSE <<Head(ws)>> \o nw(Tail(ws), seen \cup {Head(ws)})
                       IN nw(x.want, {Cell(arrays, x.sl, i) : i \in 1..x.start})
        IN /\ blks' = Append(blks, [own |-> own, start |-> x.start, refs |-> x.refs, want |-> x.want, wantOwn |-> wantOwn, tok |-> x.tok])
-          /\ bbs' = [bbs EXCEPT ![b].live = FALSE]
-    /\ Log([op |-> "build", b |-> b]) /\ UNCHANGED <<arrays, toks>>
+          /\ IF BuildKeepsBuilder THEN UNCHANGED <<bbs, arrays>>
+             ELSE /\ arrays' = Append(arrays, own)
+                  /\ bbs' = [bbs EXCEPT ![b].sl = Slice(Len(arrays) + 1, Len(own))]
+    /\ Log([op |-> "build", b |-> b]) /\ UNCHANGED toks
+
+\* Builder.Build: a new root token holding what the caller put in so far; the builder is not consumed either.  The pinned tree
+\* hands the builder's own table (truncated to the default part) and fact list to the token (BuildKeepsBuilder = FALSE models
+\* the truncation; the shared fact list is observed on the real code only).
+BuildRoot(b) ==
+    /\ bbs[b].root /\ Len(toks) < MaxToks
+    /\ LET x == bbs[b]
+           own == [i \in 1..x.sl.n |-> Cell(arrays, x.sl, i)]
+       IN \E c \in CloneSet(arrays, x.sl) :
+             /\ toks' = Append(toks, [sl |-> c.sl, refs |-> x.refs, want |-> x.want, owns |-> <<own>>, sealed |-> FALSE, bl |-> Slice(1, 0)])
+             /\ IF BuildKeepsBuilder THEN arrays' = c.A /\ UNCHANGED bbs
+                ELSE arrays' = Append(c.A, <<>>) /\ bbs' = [bbs EXCEPT ![b].sl = Slice(Len(c.A) + 1, 0)]
+    /\ Log([op |-> "buildroot", b |-> b]) /\ UNCHANGED blks
 
 \* the child's list of signed blocks: a fresh copy plus the new block, or an in-place append to the parent's list
 BlockListSet(A, bl, k) ==
@@ -130,7 +161,8 @@ Reload(t) ==
     /\ Log([op |-> "reload", t |-> t]) /\ UNCHANGED <<bbs, blks>>
 
 Step == \/ \E t \in 1..Len(toks) : CreateBlock(t) \/ (~Lite /\ (Seal(t) \/ Reload(t) \/ \E s \in 1..NSyms : GetBlockID(t, s)))
-        \/ \E b \in 1..Len(bbs) : BuildBlock(b) \/ \E s \in 1..NSyms : AddFact(b, s)
+        \/ \E b \in 1..Len(bbs) : BuildBlock(b) \/ BuildRoot(b) \/ \E s \in 1..NSyms : AddFact(b, s)
+        \/ (RootBuilders /\ NewBuilder)
         \/ \E k \in 1..Len(blks) : AppendBlk(k)
 Next == /\ Len(hist) < MaxOps
         /\ Step
@@ -140,10 +172,12 @@ Spec == Init /\ [][Next]_vars
 \* C08: every token, and every built block, still contains exactly what its own caller put in
 TokensIntact == \A t \in 1..Len(toks) : Obs(arrays, toks[t]) = toks[t].want
 \* what a token serializes: the declared symbols of the blocks its block list points to (authority first)
-WireOf(A, t) == << <<>> >> \o [i \in 1..t.bl.n |-> blks[Cell(A, t.bl, i)].own]
+WireOf(A, t) == <<t.owns[1]>> \o [i \in 1..t.bl.n |-> blks[Cell(A, t.bl, i)].own]
 WireIntact == \A t \in 1..Len(toks) : WireOf(arrays, toks[t]) = toks[t].owns
 BlocksIntact == \A k \in 1..Len(blks) : blks[k].own = blks[k].wantOwn
 Immutable == TokensIntact /\ BlocksIntact /\ WireIntact
+\* building never fails: the builder's table still starts with the parent's symbols
+NoSplitPanic == \A b \in 1..Len(bbs) : bbs[b].sl.n >= bbs[b].start
 \* the wire content of a token never changes once it exists
 WireStable == [][\A t \in 1..Len(toks) : toks'[t].owns = toks[t].owns]_vars
 View == <<arrays, toks, bbs, blks>>
